@@ -49,7 +49,8 @@ def main():
         props = list(dict.fromkeys(expected + [x for x in a.also.split(",") if x]))
         patch = d / "patch.diff"
         env = dict(os.environ)
-        tmp = Path(f"/tmp/seedrun_{sid}")
+        tag = f"{sid}_{os.getpid()}"      # unique per run: several runs may go on in parallel
+        tmp = Path(f"/tmp/seedrun_{tag}")
         try:
             if a.in_repo:
                 st = subprocess.run(["git", "-C", "/repo", "status", "--porcelain"], capture_output=True, text=True).stdout
@@ -62,7 +63,7 @@ def main():
                     subprocess.run(["git", "-C", "/repo", "worktree", "remove", "--force", str(tmp)])
                 subprocess.run(["git", "-C", "/repo", "worktree", "add", "-q", "--detach", str(tmp), "HEAD"], check=True)
                 subprocess.run(["git", "-C", str(tmp), "apply", str(patch)], check=True)
-                env.update(MOLGRI_REPO=str(tmp), VERIF_EVIDENCE_DIR=f"/tmp/seedrun_{sid}_ev", VERIF_REPLAY_DIR=f"/tmp/seedrun_{sid}_rp")
+                env.update(MOLGRI_REPO=str(tmp), VERIF_EVIDENCE_DIR=f"/tmp/seedrun_{tag}_ev", VERIF_REPLAY_DIR=f"/tmp/seedrun_{tag}_rp")
             detected_by_expected = False
             for prop in props:
                 rc, vio, tail = run_check(prop, a.tier, env)
@@ -79,8 +80,8 @@ def main():
                 subprocess.run(["git", "-C", "/repo", "checkout", "--", "."])
             else:
                 subprocess.run(["git", "-C", "/repo", "worktree", "remove", "--force", str(tmp)])
-                shutil.rmtree(f"/tmp/seedrun_{sid}_ev", ignore_errors=True)
-                shutil.rmtree(f"/tmp/seedrun_{sid}_rp", ignore_errors=True)
+                shutil.rmtree(f"/tmp/seedrun_{tag}_ev", ignore_errors=True)
+                shutil.rmtree(f"/tmp/seedrun_{tag}_rp", ignore_errors=True)
     print(json.dumps(results))
     return 0 if allok else 1
 
